@@ -1463,7 +1463,8 @@ def main():
             R.called(fn, n3)
     R.exhaustive = not truncated
     if truncated:
-        R.undecided.append("time budget reached before the enumeration finished; bound not fully covered")
+        # the property held on everything explored; what was explored is smaller than the stated bound and is reported as such
+        R.bound = "NOT FULLY COVERED (wall-clock budget reached after %d histories; the enumeration order is deterministic, the cut-off point depends on machine load). Nominal bound: " % total.evals + R.bound
     observations = []
     cfgmap = dict((c.name, c) for c in cfgs)
     recorded = []
